@@ -180,8 +180,9 @@ def table(tier):
             for ax_sym in ("average", "fourier", "bogus", "Average"):
                 reqs.append(base(method=m, uq=uq, sym=ax_sym))
     for m in ("daun", "rbasex"):
-        regs = [None, 0, 1.5, "nonneg", ("diff", 1.0), ("L2", 1.0), ("L2c", 1.0), "bogus", ("bogus", 1.0)] if m == "daun" \
-            else [None, "pos", ("L2", 1.0), ("diff", 1.0), ("SVD", 0.1), "bogus", ("bogus", 1.0)]
+        # (unknown names also with strength 0 — "no regularisation" of an unknown kind is still an unknown request — and wrong case)
+        regs = [None, 0, 1.5, "nonneg", ("diff", 1.0), ("L2", 1.0), ("L2c", 1.0), "bogus", ("bogus", 1.0), ("bogus", 0), ("l2", 0.0), ("Diff", 1.0)] \
+            if m == "daun" else [None, "pos", ("L2", 1.0), ("diff", 1.0), ("SVD", 0.1), "bogus", ("bogus", 1.0), ("Tikhonov", 0), ("l2", 0.0), ("svd", 0)]
         for reg, via, (d, _) in itertools.product(regs, (True, False), DIRS[:3]):
             if m == "rbasex" and reg == "pos" and d == "forward":
                 continue          # documented as inverse-only; raises — covered by S below, class not in the model
@@ -224,6 +225,60 @@ def admissible_mask(req):
     """symmetry_axis=None with a partial mask is rejected by get_image_quadrants (C06) — outside this model's
     `anyQuadrant` flag, so such requests are given all-or-nothing masks only"""
     return all(req["uq"]) or not any(req["uq"])
+
+
+def direction_flips(ck, tier):
+    """a forward request that follows an inverse one with the very same options (and the other way round) is answered with a
+    forward transform: whatever the first call left in a cache must not be handed out for the other direction"""
+    import abel
+    rng = np.random.default_rng(seed() + 2020)
+    n = 15
+    half = gauss_half(5, n)
+    opts = {"basex": [dict(basis_dir=None, verbose=False), dict(sigma=2.0, reg=5.0, basis_dir=None, verbose=False), dict(dr=0.5, correction=False, basis_dir=None, verbose=False)],
+            "daun": [dict(verbose=False), dict(degree=2, verbose=False), dict(degree=3, reg=("L2", 1.0), verbose=False)],
+            "direct": [dict(backend="python")], "hansenlaw": [dict(), dict(hold_order=1)]}
+    for m, sets in opts.items():
+        f = func_of(m)
+        for o in sets:
+            for first in ("inverse", "forward"):
+                second = "forward" if first == "inverse" else "inverse"
+                for mod in ("basex", "daun", "dasch", "linbasex", "rbasex"):
+                    getattr(abel, mod).cache_cleanup()
+                ck.count(("S.flip", m, first, tuple(sorted(o))), suite="S.property")
+                try:
+                    with warnings.catch_warnings(), contextlib.redirect_stdout(io.StringIO()):
+                        warnings.simplefilter("ignore")
+                        f(half, direction=first, **o)
+                        out = f(half, direction=second, **o)
+                except Exception as e:
+                    ck.violation(dict(site=m, clause="exception"), dict(method=m, options={k: str(v) for k, v in o.items()}, first=first, then=second),
+                                 f"{type(e).__name__}: {e}")
+                    continue
+                cls = classify(out / o.get("dr", 1.0) if second == "forward" else out * o.get("dr", 1.0), half, False)
+                if cls is not None and cls != ("fwd" if second == "forward" else "inv"):
+                    ck.violation(dict(site=m, clause="direction-after-other-direction"),
+                                 dict(method=m, options={k: str(v) for k, v in o.items()}, first=first, then=second),
+                                 f"{m}: a {second} request right after a {first} request with the same options was answered with "
+                                 f"{'an inverse' if cls == 'inv' else 'a forward'} transform")
+    # rbasex on whole images
+    im = gauss_full(21, 21)
+    for o in (dict(), dict(order=0), dict(out="full")):
+        for first in ("inverse", "forward"):
+            second = "forward" if first == "inverse" else "inverse"
+            abel.rbasex.cache_cleanup()
+            ck.count(("S.flip", "rbasex", first, tuple(sorted(o))), suite="S.property")
+            try:
+                with warnings.catch_warnings(), contextlib.redirect_stdout(io.StringIO()):
+                    warnings.simplefilter("ignore")
+                    abel.rbasex.rbasex_transform(im, direction=first, **o)
+                    out = abel.rbasex.rbasex_transform(im, direction=second, **o)[0]
+            except Exception as e:
+                ck.violation(dict(site="rbasex", clause="exception"), dict(method="rbasex", options=o, first=first, then=second), f"{type(e).__name__}: {e}")
+                continue
+            cls = classify(out, im, True)
+            if cls is not None and cls != ("fwd" if second == "forward" else "inv"):
+                ck.violation(dict(site="rbasex", clause="direction-after-other-direction"), dict(method="rbasex", options=o, first=first, then=second),
+                             f"rbasex: a {second} request right after a {first} one was answered with the other transform")
 
 
 def run(tier):
@@ -297,7 +352,8 @@ def run(tier):
             ck.violation(dict(sig, clause="unknown-crop"), show, "unknown crop accepted")
         elif req["via"] and req["method"] in METHODS[:8] and req["sym"] not in ("average", "fourier") and got != "raise":
             ck.violation(dict(sig, clause="unknown-symmetrize"), show, "unknown symmetrize_method accepted")
-        elif req["reg"] in ("bogus", ("bogus", 1.0)) and d == "inverse" and got != "raise":   # (daun also rejects it for forward)
+        elif req["reg"] in ("bogus", ("bogus", 1.0), ("bogus", 0), ("l2", 0.0), ("Diff", 1.0), ("Tikhonov", 0), ("svd", 0)) \
+                and d == "inverse" and got != "raise":   # (daun also rejects it for forward)
             ck.violation(dict(sig, clause="unknown-reg"), show, "unknown regularisation accepted")
         elif req["out"] in ("bogus", "Same") and got != "raise":
             ck.violation(dict(sig, clause="unknown-out"), show, "unknown rbasex out accepted")
@@ -346,6 +402,7 @@ def run(tier):
     ck.cov["exhaustive"] = True
     ck.cov["explanation"] = ("the request-class table is finite and enumerated completely (section A-C); section D adds "
                              "seeded random interactions")
+    direction_flips(ck, tier)
     from harness import rbxmachine
     rbxmachine.run_sessions(ck, tier)            # requests that raise, interleaved with valid ones: outcome and cache state vs the Lean machine
     return ck.finish()
